@@ -4052,7 +4052,13 @@ def plain_column_projection(expr, parent, dependents, additional_columns=None):
     if (
         not isinstance(column_union, list)
         and expr.frame.ndim == 2
-        and any(_is_column_keyed(op) for op in expr.operands[1:])
+        and any(
+            _is_column_keyed(op)
+            # a one-partition Series that is broadcast against the DataFrame,
+            # e.g. df.fillna(df.mean()); it would not be against a Series
+            or (isinstance(op, Expr) and op.ndim == 1 and expr._broadcast_dep(op))
+            for op in expr.operands[1:]
+        )
     ):
         # Another operand is matched against the columns of the frame (e.g. the
         # condition of where or the dict of fillna), it has to stay a DataFrame
